@@ -63,7 +63,9 @@ def real_compositions(chk, stats):
         kinds = [(rng.choice(kinds_pool), rng.randint(1, 3)) for _ in range(k)]
         if not quick or li == 0:
             kinds[rng.below(k)] = (rng.choice(rl.ALL9[6:]), 2)      # one surrogate sampler
-        kinds[0] = (rng.choice(["halton", "rseq", "uniform"]), rng.randint(2, 3))  # history-free first
+        # history-free first sampler, producing at least as many points as any later sampler needs (best-batch requires
+        # batch_size existing points)
+        kinds[0] = (rng.choice(["halton", "rseq", "uniform"]), max(3, max(b for _, b in kinds)))
         spec = {"kinds": kinds, "nparams": rng.randint(1, 3), "E": rng.randint(1, 2), "seed": rng.below(2**31),
                 "loss": rng.choice(["minkowski", "msm", "fourier"]), "rl": False}
         n = 4 if quick else rng.randint(4, 6)
